@@ -13,8 +13,8 @@ Abstract domains shared by the rules (values for sa.interp).
 import ast
 import itertools
 
-from .interp import AbstractValue, Unknown, RxVal, InterpError, is_abstract, Raised, ExcVal
-from .model import ClassInfo
+from .interp import AbstractValue, Unknown, RxVal, InterpError, is_abstract, Raised, ExcVal, LambdaVal, BoundMethod
+from .model import ClassInfo, FuncInfo
 
 _uid = itertools.count(1)
 
@@ -531,7 +531,11 @@ def install_rx_hooks(interp, log=None):
         if any(is_abstract(a) for a in args[1:]):
             subj = args[2]
             return AbsStr(prov=('rxsub', rx.pattern, _freeze(args[1]), _freeze(subj)))
-        return rx.compiled().sub(*args[1:], **kwargs)
+        rest = list(args[1:])
+        if rest and isinstance(rest[0], (FuncInfo, LambdaVal, BoundMethod)):
+            repl = rest[0]
+            rest[0] = lambda m: interp_.call(repl, [m], {})
+        return rx.compiled().sub(*rest, **kwargs)
     interp.intrinsics['rx.sub'] = sub
 
     def split(interp_, args, kwargs):
